@@ -72,7 +72,14 @@ Definition compact (rs : list irec) : bytes :=
 Definition rec_width (r : irec) : N := blen (r_digest r) + 8.
 
 (* multiWidthIndex.Load onto an existing index: buckets of the new records replace buckets of
-   the same width *)
+   the same width.  Go sorts each bucket with sort.Sort, which is NOT stable; [srt] stands for
+   whatever sort.Sort does (contract: a digest-sorted permutation of its input, see
+   proofs/IndexSort.v [sort_contract]); the executable instance is the stable insertion sort. *)
+Definition mwi_load_with (srt : list irec -> list irec) (rs : list irec) (m : mwi) : mwi :=
+  fold_left (fun acc g => kv_put (fst g) (compact (srt (snd g))) acc)
+            (group_by rec_width rs) m.
+(* the executable instance, written out (convertible with [mwi_load_with sort_by_digest]) so that
+   [unfold mwi_load] shows the fold itself *)
 Definition mwi_load (rs : list irec) (m : mwi) : mwi :=
   fold_left (fun acc g => kv_put (fst g) (compact (sort_by_digest (snd g))) acc)
             (group_by rec_width rs) m.
@@ -83,6 +90,12 @@ Definition mwi_marshal (m : mwi) : bytes :=
   le_enc 4 (N.of_nat (length m)) ++ concat (map swi_marshal m).
 
 Definition max_width : N := 33554432.
+(* the largest bucket length singleWidthIndex.Unmarshal accepts: the declared length must fit int64.
+   (Before the C09 repair the bucket was allocated up front and anything above runtime.maxAlloc = 2^48
+   panicked in makeslice; the repaired code reads the bucket incrementally, so only the int64 test
+   remains.  A []byte above 2^48 bytes cannot exist in Go, i.e. such inputs are outside what any
+   caller can present; the model does not represent that allocator limit.) *)
+Definition max_alloc : N := 9223372036854775807.
 
 (* singleWidthIndex.Unmarshal: Ok ((width, data), rest) *)
 Definition swi_unmarshal (s : bytes) : res ((N * bytes) * bytes) :=
@@ -169,6 +182,8 @@ Definition mwi_foreach (m : mwi) : list (bytes * N) := concat (map swi_foreach m
 (* ---- MultihashIndexSorted: code -> multi-width index ------------------------------------ *)
 Definition mhidx := list (N * mwi).
 
+Definition mh_load_with (srt : list irec -> list irec) (rs : list irec) (m : mhidx) : mhidx :=
+  fold_left (fun acc g => kv_put (fst g) (mwi_load_with srt (snd g) []) acc) (group_by r_code rs) m.
 Definition mh_load (rs : list irec) (m : mhidx) : mhidx :=
   fold_left (fun acc g => kv_put (fst g) (mwi_load (snd g) []) acc) (group_by r_code rs) m.
 
@@ -217,6 +232,11 @@ Definition idx_new (codec : N) : option index :=
   else None.
 Definition idx_codec (i : index) : N :=
   match i with IdxSorted _ => codec_sorted | IdxMh _ => codec_mh_sorted end.
+Definition idx_load_with (srt : list irec -> list irec) (rs : list irec) (i : index) : index :=
+  match i with
+  | IdxSorted m => IdxSorted (mwi_load_with srt rs m)
+  | IdxMh m => IdxMh (mh_load_with srt rs m)
+  end.
 Definition idx_load (rs : list irec) (i : index) : index :=
   match i with IdxSorted m => IdxSorted (mwi_load rs m) | IdxMh m => IdxMh (mh_load rs m) end.
 Definition idx_marshal (i : index) : bytes :=
@@ -243,6 +263,11 @@ Definition idx_read (s : bytes) : res (index * bytes) :=
   end.
 
 (* InsertionIndex.Flatten(codec) *)
+Definition ii_flatten_with (srt : list irec -> list irec) (codec : N) (ii : iidx) : option index :=
+  match idx_new codec with
+  | Some i => Some (idx_load_with srt (ii_flatten_records ii) i)
+  | None => None
+  end.
 Definition ii_flatten (codec : N) (ii : iidx) : option index :=
   match idx_new codec with
   | Some i => Some (idx_load (ii_flatten_records ii) i)
@@ -254,3 +279,73 @@ Definition spec_offsets_digest (rs : list irec) (d : bytes) : list N :=
   map r_off (filter (fun r => bytes_eqb (r_digest r) d) rs).
 Definition spec_offsets_mh (rs : list irec) (code : N) (d : bytes) : list N :=
   map r_off (filter (fun r => (r_code r =? code) && bytes_eqb (r_digest r) d) rs).
+
+(* ---- the byte count the writers REPORT (computed by the Go code, not measured) ----------- *)
+Definition swi_marshal_len (b : N * bytes) : N := 4 + 8 + blen (snd b).
+Definition mwi_marshal_len (m : mwi) : N :=
+  fold_left (fun l b => l + swi_marshal_len b) m 4.
+Definition mh_marshal_len (m : mhidx) : N :=
+  fold_left (fun l cm => l + (8 + mwi_marshal_len (snd cm))) m 4.
+Definition idx_marshal_len (i : index) : N :=
+  match i with IdxSorted m => mwi_marshal_len m | IdxMh m => mh_marshal_len m end.
+(* index.WriteTo: uint64(n) + l *)
+Definition idx_write_len (i : index) : N := uv_size (idx_codec i) + idx_marshal_len i.
+
+(* ---- canonical form: the one freedom the format leaves ------------------------------------ *)
+(* Entries sharing a digest may appear in any relative order (sort.Sort is unstable);
+   [canon] orders every bucket by (digest, offset).  On a digest-sorted bucket this only
+   permutes inside runs of equal digests (proofs/IndexCanon.v). *)
+Definition entry := (bytes * N)%type.     (* digest, offset *)
+Definition entry_leb (a b : entry) : bool :=
+  match bytes_cmp (fst a) (fst b) with
+  | Lt => true
+  | Gt => false
+  | Eq => snd a <=? snd b
+  end.
+Fixpoint ins_entry (x : entry) (l : list entry) : list entry :=
+  match l with
+  | [] => [x]
+  | y :: t => if entry_leb x y then x :: l else y :: ins_entry x t
+  end.
+Definition sort_entries (l : list entry) : list entry := fold_right ins_entry [] l.
+Definition compact_entries (l : list entry) : bytes :=
+  concat (map (fun e => fst e ++ le_enc 8 (snd e)) l).
+Definition swi_canon (b : N * bytes) : N * bytes :=
+  (fst b, compact_entries (sort_entries (swi_foreach b))).
+Definition mwi_canon (m : mwi) : mwi := map swi_canon m.
+Definition mh_canon (m : mhidx) : mhidx := map (fun cm => (fst cm, mwi_canon (snd cm))) m.
+Definition idx_canon (i : index) : index :=
+  match i with IdxSorted m => IdxSorted (mwi_canon m) | IdxMh m => IdxMh (mh_canon m) end.
+
+(* ---- executable well-formedness of the on-disk order ("buckets ascend by code then width,
+   entries ascend by digest") -------------------------------------------------------------- *)
+Fixpoint ascending (l : list N) : bool :=
+  match l with
+  | a :: ((b :: _) as t) => (a <? b) && ascending t
+  | _ => true
+  end.
+Fixpoint digests_sorted (l : list bytes) : bool :=
+  match l with
+  | a :: ((b :: _) as t) => bytes_leb a b && digests_sorted t
+  | _ => true
+  end.
+Definition swi_sortedb (b : N * bytes) : bool := digests_sorted (map fst (swi_foreach b)).
+Definition mwi_sortedb (m : mwi) : bool := ascending (map fst m) && forallb swi_sortedb m.
+Definition mh_sortedb (m : mhidx) : bool :=
+  ascending (map fst m) && forallb (fun cm => mwi_sortedb (snd cm)) m.
+Definition idx_sortedb (i : index) : bool :=
+  match i with IdxSorted m => mwi_sortedb m | IdxMh m => mh_sortedb m end.
+
+(* does any bucket hold two entries with one digest?  (then sort.Sort's choice shows in the bytes) *)
+Fixpoint adjacent_dup (l : list bytes) : bool :=
+  match l with
+  | a :: ((b :: _) as t) => bytes_eqb a b || adjacent_dup t
+  | _ => false
+  end.
+Definition swi_has_ties (b : N * bytes) : bool := adjacent_dup (map fst (swi_foreach b)).
+Definition mwi_has_ties (m : mwi) : bool := existsb swi_has_ties m.
+Definition idx_has_ties (i : index) : bool :=
+  match i with
+  | IdxSorted m => mwi_has_ties m
+  | IdxMh m => existsb (fun cm => mwi_has_ties (snd cm)) m
+  end.
